@@ -180,6 +180,9 @@ def check_exec(ck: Check):
             bad = f"per-statement results differ: execute_string {got} vs one by one {want}"
         elif s1 != s2:
             bad = f"table contents differ: after execute_string {s1}, after one-by-one {s2}"
+        if bad and err1 == "ProgrammingError" and err2 is None and any(re.search(r"\$\$[^$]*\$\w", st_) or re.search(r"\$\$\$\w", st_) for st_ in stmts) and ck.finding("C16-dollar-quoted-dollar"):
+            ck.known("C16-dollar-quoted-dollar", ck.finding("C16-dollar-quoted-dollar")["what"])
+            bad = None
         if bad and not reported:
             reported = True
             ck.violation(f"execute_string({text!r}) [intended statements {stmts}]: {bad}", {"text": text, "statements": stmts, "dict_cursor": dictc, "finding": bad})
